@@ -343,6 +343,121 @@ Definition handle_fc (c : cfg) (s : layer) (fc : fcpdu) : option (layer * list e
     end in
   (Some r, r).
 
+(** Flow control reception, timeouts and completion check of _process_tx (L999-1054).
+    [inl r]: _process_tx returns early with report [r]. *)
+Definition tx_after_fc (c : cfg) (s : layer) : tx_report + (layer * list event) :=
+  let fc := last_fc s in
+  let s := s <| last_fc := None |> in
+  let after_fc :=
+    match fc with
+    | None => (Some (s, []), (s, []))
+    | Some f => handle_fc c s f
+    end in
+  match after_fc with
+  | (None, (s1, evs)) => inl (mk_tr s1 evs None false)
+  | (Some _, (s1, evs1)) =>
+    (* timeouts *)
+    let '(s2, evs2) :=
+      if timer_timed_out (now s1) (timer_rx_fc s1) then
+        let '(s', e) := stop_sending false s1 in (s', EErr FlowControlTimeout :: e)
+      else (s1, []) in
+    (* completion check *)
+    match tx_state s2 with
+    | TxIdle => inr (s2, evs1 ++ evs2)
+    | _ =>
+      match active s2 with
+      | None => inl (mk_crash s2 (evs1 ++ evs2) 5)
+      | Some r =>
+          if r_is_depleted r && (match tx_standby s2 with None => true | Some _ => false end)
+          then let '(s3, evs3) := stop_sending true s2 in inr (s3, evs1 ++ evs2 ++ evs3)
+          else inr (s2, evs1 ++ evs2)
+      end
+    end
+  end.
+
+Definition tx_finish (p : params) (s' : layer) (evs' : list event) (out : option frame) (imm : bool) : tx_report :=
+  match out with
+  | Some m => mk_tr (lim_inform p (zlen (f_data m)) s') evs' out imm
+  | None => mk_tr s' evs' None imm
+  end.
+
+(** TRANSMIT_CF branch (L1140-1168) *)
+Definition tx_cf (c : cfg) (allowed : Z) (s3 : layer) (evs : list event) : tx_report :=
+  let p := c_p c in
+  match remote_bs s3, active s3 with
+  | Some rbs, Some r =>
+      if timer_timed_out (now s3) (timer_tx_stmin s3) then
+        let data_length := p_tx_dl p - 1 - zlen (c_tx_prefix c) in
+        let payload_length := Z.min data_length (r_remaining r) in
+        if payload_length <=? allowed then
+          match consume payload_length false r with
+          | (None, _) => mk_crash s3 evs 6
+          | (Some payload, r') =>
+              let s4 := s3 <| active := Some r' |> in
+              let emit :=
+                if 0 <? zlen payload then
+                  match make_tx_msg c (c_tx_id c Physical)
+                          (c_tx_prefix c ++ [Z.lor 0x20 (tx_seqnum s4)] ++ payload) with
+                  | None => None
+                  | Some m =>
+                      Some (s4 <| tx_seqnum := Z.land (tx_seqnum s4 + 1) 0xF |>
+                               <| timer_tx_stmin ::= timer_start (now s4) |>
+                               <| tx_block_counter := tx_block_counter s4 + 1 |>, Some m)
+                  end
+                else Some (s4, None) in
+              match emit with
+              | None => mk_crash s4 evs 7
+              | Some (s5, out) =>
+                  if r_is_depleted r' then
+                    if 0 <? r_remaining r' then
+                      let '(s6, e6) := stop_sending false s5 in
+                      tx_finish p s6 (evs ++ EErr BadGenerator :: e6) out false
+                    else
+                      let '(s6, e6) := stop_sending true s5 in
+                      tx_finish p s6 (evs ++ e6) out false
+                  else if negb (rbs =? 0) && (rbs <=? tx_block_counter s5) then
+                    tx_finish p (start_rx_fc_timer c (s5 <| tx_state := TxWaitFC |>)) evs out true
+                  else tx_finish p s5 evs out false
+              end
+          end
+        else tx_finish p s3 evs None false
+      else tx_finish p s3 evs None false
+  | _, _ => mk_crash s3 evs 8
+  end.
+
+(** The state machine part of _process_tx (L1056-1173) *)
+Definition tx_fsm (c : cfg) (allowed : Z) (s3 : layer) (evs : list event) : tx_report :=
+  let p := c_p c in
+  match tx_state s3 with
+  | TxIdle =>
+      match idle_dequeue c (tx_queue s3) s3 [] allowed with
+      | SRCrash site => mk_crash s3 evs site
+      | SRDone s4 evs4 out => tx_finish p s4 (evs ++ evs4) out false
+      end
+  | TxSFStandby | TxFFStandby =>
+      match tx_standby s3 with
+      | Some m =>
+          if zlen (f_data m) <=? allowed then
+            let s4 := s3 <| tx_standby := None |> in
+            match tx_state s3 with
+            | TxFFStandby => tx_finish p (start_rx_fc_timer c s4 <| tx_state := TxWaitFC |>) evs (Some m) false
+            | _ => let '(s5, evs5) := stop_sending true s4 in tx_finish p s5 (evs ++ evs5) (Some m) false
+            end
+          else tx_finish p s3 evs None false
+      | None => tx_finish p s3 evs None false
+      end
+  | TxWaitFC => tx_finish p s3 evs None false
+  | TxTransmitCF => tx_cf c allowed s3 evs
+  end.
+
+(** _process_tx after the pending Flow Control part (L999-1173). [allowed] is
+    rate_limiter.allowed_bytes() read at the top of _process_tx. *)
+Definition process_tx_main (c : cfg) (allowed : Z) (s : layer) : tx_report :=
+  match tx_after_fc c s with
+  | inl r => r
+  | inr (s3, evs) => tx_fsm c allowed s3 evs
+  end.
+
 (** _process_tx (L983-1173) *)
 Definition process_tx (c : cfg) (s0 : layer) : tx_report :=
   let p := c_p c in
@@ -365,107 +480,7 @@ Definition process_tx (c : cfg) (s0 : layer) : tx_report :=
     else inr s0 in
   match pend with
   | inl r => r
-  | inr s =>
-    (* flow control reception *)
-    let fc := last_fc s in
-    let s := s <| last_fc := None |> in
-    let after_fc :=
-      match fc with
-      | None => (Some (s, []), (s, []))
-      | Some f => handle_fc c s f
-      end in
-    match after_fc with
-    | (None, (s1, evs)) => mk_tr s1 evs None false
-    | (Some _, (s1, evs1)) =>
-      (* timeouts *)
-      let '(s2, evs2) :=
-        if timer_timed_out (now s1) (timer_rx_fc s1) then
-          let '(s', e) := stop_sending false s1 in (s', EErr FlowControlTimeout :: e)
-        else (s1, []) in
-      (* completion check *)
-      let chk :=
-        match tx_state s2 with
-        | TxIdle => inr (s2, [])
-        | _ =>
-          match active s2 with
-          | None => inl 5
-          | Some r =>
-              if r_is_depleted r && (match tx_standby s2 with None => true | Some _ => false end)
-              then inr (stop_sending true s2) else inr (s2, [])
-          end
-        end in
-      match chk with
-      | inl site => mk_crash s2 (evs1 ++ evs2) site
-      | inr (s3, evs3) =>
-        let evs := evs1 ++ evs2 ++ evs3 in
-        let finish (s' : layer) (evs' : list event) (out : option frame) (imm : bool) :=
-          match out with
-          | Some m => mk_tr (lim_inform p (zlen (f_data m)) s') evs' out imm
-          | None => mk_tr s' evs' None imm
-          end in
-        match tx_state s3 with
-        | TxIdle =>
-            match idle_dequeue c (tx_queue s3) s3 [] allowed with
-            | SRCrash site => mk_crash s3 evs site
-            | SRDone s4 evs4 out => finish s4 (evs ++ evs4) out false
-            end
-        | TxSFStandby | TxFFStandby =>
-            match tx_standby s3 with
-            | Some m =>
-                if zlen (f_data m) <=? allowed then
-                  let s4 := s3 <| tx_standby := None |> in
-                  match tx_state s3 with
-                  | TxFFStandby => finish (start_rx_fc_timer c s4 <| tx_state := TxWaitFC |>) evs (Some m) false
-                  | _ => let '(s5, evs5) := stop_sending true s4 in finish s5 (evs ++ evs5) (Some m) false
-                  end
-                else finish s3 evs None false
-            | None => finish s3 evs None false
-            end
-        | TxWaitFC => finish s3 evs None false
-        | TxTransmitCF =>
-            match remote_bs s3, active s3 with
-            | Some rbs, Some r =>
-                if timer_timed_out (now s3) (timer_tx_stmin s3) then
-                  let data_length := p_tx_dl p - 1 - zlen (c_tx_prefix c) in
-                  let payload_length := Z.min data_length (r_remaining r) in
-                  if payload_length <=? allowed then
-                    match consume payload_length false r with
-                    | (None, _) => mk_crash s3 evs 6
-                    | (Some payload, r') =>
-                        let s4 := s3 <| active := Some r' |> in
-                        let emit :=
-                          if 0 <? zlen payload then
-                            match make_tx_msg c (c_tx_id c Physical)
-                                    (c_tx_prefix c ++ [Z.lor 0x20 (tx_seqnum s4)] ++ payload) with
-                            | None => None
-                            | Some m =>
-                                Some (s4 <| tx_seqnum := Z.land (tx_seqnum s4 + 1) 0xF |>
-                                         <| timer_tx_stmin ::= timer_start (now s4) |>
-                                         <| tx_block_counter := tx_block_counter s4 + 1 |>, Some m)
-                            end
-                          else Some (s4, None) in
-                        match emit with
-                        | None => mk_crash s4 evs 7
-                        | Some (s5, out) =>
-                            if r_is_depleted r' then
-                              if 0 <? r_remaining r' then
-                                let '(s6, e6) := stop_sending false s5 in
-                                finish s6 (evs ++ EErr BadGenerator :: e6) out false
-                              else
-                                let '(s6, e6) := stop_sending true s5 in
-                                finish s6 (evs ++ e6) out false
-                            else if negb (rbs =? 0) && (rbs <=? tx_block_counter s5) then
-                              finish (start_rx_fc_timer c (s5 <| tx_state := TxWaitFC |>)) evs out true
-                            else finish s5 evs out false
-                        end
-                    end
-                  else finish s3 evs None false
-                else finish s3 evs None false
-            | _, _ => mk_crash s3 evs 8
-            end
-        end
-      end
-    end
+  | inr s => process_tx_main c allowed s
   end.
 
 (** ** process() (L783-877) *)
